@@ -1054,6 +1054,7 @@ func buildAPI() *apifu.API {
 	}
 	obj.Fields = fields
 	cfg := &apifu.Config{ResolveNodesByGlobalIds: resolveNodesByGlobalIds}
+	addOverlapFields(fields, cfg, obj)
 	cfg.AddNamedType(&graphql.ObjectType{
 		Name: "GNode",
 		Fields: map[string]*graphql.FieldDefinition{
